@@ -10,6 +10,7 @@ var allSpecs = []HarnessSpec{
 	{Prop: "C01", Func: "ZZ_C01_Deps", Tag: "shape=2", POR: true, Replay: "native", Params: map[string]int{"shape": 2, "maxconc": 0, "failing": 1, "__coarse": 1}, TParams: map[string]int{"maxconc": 1, "failing": 2}},
 	{Prop: "C01", Func: "ZZ_C01_Deps", Tag: "shape=3", POR: true, Replay: "native", Params: map[string]int{"shape": 3, "maxconc": 0, "failing": 1, "__coarse": 1}, TParams: map[string]int{"maxconc": 1, "failing": 2}},
 	{Prop: "C01", Func: "ZZ_C01_Deps", Tag: "shape=4", POR: true, Replay: "native", Params: map[string]int{"shape": 4, "maxconc": 0, "failing": 1, "__coarse": 1}, TParams: map[string]int{"failing": 2}},
+	{Prop: "C01", Func: "ZZ_C01_Deps", Tag: "shape=7", POR: true, Replay: "native", Params: map[string]int{"shape": 7, "maxconc": 0, "failing": 1, "__coarse": 1}},
 	{Prop: "C01", Func: "ZZ_C01_Deps", Tag: "shape=6", POR: true, Replay: "native", Params: map[string]int{"shape": 6, "maxconc": 0, "failing": 2, "__coarse": 1}},
 	{Prop: "C01", Func: "ZZ_K_TwoCallers", Tag: "fine-grained", Tiers: "thorough", POR: true, Replay: "native", Twin: true},
 	{Prop: "C06", Func: "ZZ_K_TwoCallers", Tag: "fine-grained", Tiers: "thorough", POR: true, Replay: "native"},
@@ -59,6 +60,7 @@ var allSpecs = []HarnessSpec{
 	{Prop: "C07", Func: "ZZ_C07_Concurrency", Tag: "shape=2", POR: true, Replay: "native", Params: map[string]int{"shape": 2, "maxconc": 2, "__coarse": 1}},
 	{Prop: "C07", Func: "ZZ_C07_Concurrency", Tag: "shape=2,failing", POR: true, Replay: "native", Params: map[string]int{"shape": 2, "maxconc": 1, "failing": 1, "__coarse": 1}},
 	{Prop: "C07", Func: "ZZ_C07_CallLimit", Replay: "native", Twin: true},
+	{Prop: "C07", Func: "ZZ_C07_CallLimit", Tag: "acyclic-reading", Replay: "native", Params: map[string]int{"acyclic_reading": 1}},
 	{Prop: "C07", Func: "ZZ_C07_FailingDynamicVar", POR: true, Replay: "native", Twin: true, Params: map[string]int{"__coarse": 1}},
 	{Prop: "C07", Func: "ZZ_C07_Cycle", POR: true, Replay: "native", Twin: true, Params: map[string]int{"__coarse": 1}},
 	{Prop: "C07", Func: "ZZ_C07_MutualOnce", POR: true, Replay: "native", Params: map[string]int{"__coarse": 1}},
@@ -78,6 +80,7 @@ var allSpecs = []HarnessSpec{
 	{Prop: "C09", Pkg: "taskfile/ast", Func: "ZZ_C09_Merge", Tag: "diamond", POR: true, Replay: "native", Params: map[string]int{"diamond": 1, "__maporder": 1, "__maporder_scope": 1, "__coarse": 1}},
 	{Prop: "C09", Pkg: "taskfile/ast", Func: "ZZ_C09_Merge", Tag: "deep-diamond", POR: true, Replay: "native", Params: map[string]int{"diamond": 1, "deep": 1, "__maporder": 1, "__maporder_scope": 1, "__coarse": 1}},
 	{Prop: "C09", Func: "ZZ_C09_WhenChangedKey", Replay: "native", Twin: true, Params: map[string]int{"__maporder": 1, "__maporder_scope": 1}},
+	{Prop: "C06", Func: "ZZ_C06_EffectiveRunMode", Replay: "native", Twin: true},
 	{Prop: "C06", Func: "ZZ_C06_DynamicBinding", Replay: "native", Twin: true, Params: map[string]int{"__tmplsrc": 1}},
 	{Prop: "C11", Func: "ZZ_C06_DynamicBinding", Replay: "native", Params: map[string]int{"__tmplsrc": 1}},
 	{Prop: "C06", Func: "ZZ_C09_WhenChangedKey", Replay: "native", Params: map[string]int{"__maporder": 1, "__maporder_scope": 1}},
@@ -105,10 +108,11 @@ var allSpecs = []HarnessSpec{
 	{Prop: "C16", Pkg: "taskfile", Func: "ZZ_C16_GitNode", Replay: "native", Twin: true},
 	{Prop: "C16", Pkg: "taskfile", Func: "ZZ_C16_Snippet", Replay: "native", Twin: true},
 	{Prop: "C17", Func: "ZZ_C17_RunCommand", Replay: "native", Twin: true},
-	{Prop: "C17", Pkg: "internal/output", Func: "ZZ_C17_Group", POR: true, Replay: "native", Twin: true, Params: map[string]int{"maxchunks": 1, "__coarse": 1}, TParams: map[string]int{"maxchunks": 2}},
-	{Prop: "C17", Pkg: "internal/output", Func: "ZZ_C17_Prefixed", POR: true, Replay: "native", Twin: true, Params: map[string]int{"maxchunks": 1, "__coarse": 1}, TParams: map[string]int{"maxchunks": 2}},
+	{Prop: "C17", Pkg: "internal/output", Func: "ZZ_C17_Group", POR: true, Replay: "native", Twin: true, Params: map[string]int{"maxchunks": 1, "__coarse": 1}, TParams: map[string]int{"maxchunks": 2, "maxchunks_others": 1}},
+	{Prop: "C17", Pkg: "internal/output", Func: "ZZ_C17_Prefixed", POR: true, Replay: "native", Twin: true, Params: map[string]int{"maxchunks": 1, "__coarse": 1}, TParams: map[string]int{"maxchunks": 2, "maxchunks_others": 1}},
 	{Prop: "C20", Pkg: "taskfile", Func: "ZZ_C20_Cache", Replay: "native", Twin: true, Params: map[string]int{"steps": 2}, TParams: map[string]int{"steps": 3, "slim": 1}},
 	{Prop: "C20", Pkg: "taskfile", Func: "ZZ_C20_Cache", Tag: "three-invocations", Replay: "native", Params: map[string]int{"steps": 3, "slim": 1}},
+	{Prop: "C20", Pkg: "taskfile", Func: "ZZ_C20_RedirectPolicy", Replay: "native", Twin: true},
 	{Prop: "C20", Pkg: "taskfile", Func: "ZZ_C20_Insecure", Replay: "native", Twin: true},
 	{Prop: "C18", Func: "ZZ_C18_Kernel", Tag: "shape=2", POR: true, Replay: "native-race", Twin: true, Params: map[string]int{"shape": 2, "failing": 1, "__coarse": 1, "__race": 1}, TParams: map[string]int{"failing": 2}},
 	{Prop: "C18", Func: "ZZ_C18_Kernel", Tag: "shape=1", POR: true, Replay: "native-race", Params: map[string]int{"shape": 1, "failing": 1, "__coarse": 1, "__race": 1}},
